@@ -221,6 +221,13 @@ def run(ck: Checker):
 
     with ck.as_rule('C14-8', 'exception transport: the RemoteException obligations C15-1..5, on which "carries the server-side traceback" rests', minimum=5):
         c15.run(ck)
+    # ------------------------------------------------------------------ C14-13
+    ck.rule('C14-13', 'the exception carries the traceback of *this* server\'s frames: Server._wrap_user_exc wraps with RemoteException(<the exception>) alone, so that the text is formatted from the live traceback of the hosted method — a forwarded text (of a nested remote call that failed) would drop the frames of the method the caller invoked (AGREE)', minimum=1)
+    wf = ck.repo.func(SERVERPROC, 'Server._wrap_user_exc')
+    wp = wf.params()[1] if len(wf.params()) > 1 else None
+    rets = [n for n in walk_shallow_func(wf.node) if isinstance(n, ast.Return)]
+    badr = [r for r in rets if not (isinstance(r.value, ast.Call) and (dotted(r.value.func) or '').endswith('RemoteException') and len(r.value.args) == 1 and not r.value.keywords and is_name(r.value.args[0], wp or ''))]
+    ck.ob('C14-13', wf, badr[0] if badr else (rets[0] if rets else wf.node), bool(rets) and not badr, f'every return is RemoteException({wp}): the text is formatted where the hosted method failed' if rets and not badr else f'L{badr[0].lineno if badr else wf.node.lineno}: `{norm_text(badr[0].value)[:70] if badr else "no return"}` does not wrap the exception with a traceback formatted at this site: a hosted method that fails because a nested remote call failed reaches the caller without its own server-side frames')
     # ------------------------------------------------------------------ C14-12
     # "state changes are visible through every proxy of that object": a proxy whose object was destroyed under it (a
     # decrement too many, a transit reference not taken) answers RemoteError / KeyError instead -- the reference-count
